@@ -4,7 +4,8 @@ Each seed is applied to a scratch copy of /repo under /dev/shm (never to /repo i
 (VERIF_REPO / VERIF_OUT, proof stage skipped for these runs only: the Coq development does not depend on the repository).
 Several seeds are tested at the same time.  The scratch copies are removed as soon as their check has finished.
 
-usage: VERIF_SEED=<n> /venv/bin/python harness/regress_all.py [-j 6] [name-prefix ...]
+usage: VERIF_SEED=<n> /venv/bin/python harness/regress_all.py [-j 6] [--refactorings] [name-prefix ...]
+--refactorings: the behaviour-preserving refactorings (seeded/refactor_*) instead; all 17 checks must stay silent on each.
 """
 from __future__ import annotations
 
@@ -20,9 +21,17 @@ V = Path("/verif/seeded")
 SCRATCH = Path("/dev/shm/regress_scratch")
 
 
-def plan():
+ALL = ["C%02d" % i for i in range(1, 18)]
+
+
+def plan(refactorings=False):
     kf = json.load(open("/verif/known_findings.json"))["findings"]
     for d in sorted(V.iterdir()):
+        if refactorings:
+            # the converse test: behaviour-preserving refactorings, all 17 checks must stay silent
+            if d.is_dir() and d.name.startswith("refactor_") and (d / "patch.diff").exists():
+                yield d.name, d / "patch.diff", False, ALL
+            continue
         if not d.is_dir() or d.name.startswith("refactor_"):
             continue
         meta = json.loads((d / "meta.json").read_text()) if (d / "meta.json").exists() else {}
@@ -70,16 +79,23 @@ def main():
     if args[:1] == ["-j"]:
         j = int(args[1])
         args = args[2:]
-    items = [it for it in plan() if not args or any(it[0].startswith(a) for a in args)]
+    refactorings = args[:1] == ["--refactorings"]
+    if refactorings:
+        args = args[1:]
+    items = [it for it in plan(refactorings) if not args or any(it[0].startswith(a) for a in args)]
     bad = []
     with ThreadPoolExecutor(j) as ex:
         for name, kinds, err in ex.map(one, items):
-            ok = bool(kinds) and any(v != "silent" for v in kinds.values())
-            print(name, kinds if kinds is not None else "ERROR " + err, "" if ok else "<<<<<< NOT CAUGHT", flush=True)
+            if refactorings:
+                ok = bool(kinds) and all(v == "silent" for v in kinds.values())
+                print(name, {k: v for k, v in (kinds or {}).items() if v != "silent"} if kinds is not None else "ERROR " + err, "all silent" if ok else "<<<<<< ALARM", flush=True)
+            else:
+                ok = bool(kinds) and any(v != "silent" for v in kinds.values())
+                print(name, kinds if kinds is not None else "ERROR " + err, "" if ok else "<<<<<< NOT CAUGHT", flush=True)
             if not ok:
                 bad.append(name)
     shutil.rmtree(SCRATCH, ignore_errors=True)
-    print("NOT CAUGHT:", bad)
+    print("ALARMS ON REFACTORINGS:" if refactorings else "NOT CAUGHT:", bad)
 
 
 if __name__ == "__main__":
